@@ -42,6 +42,7 @@
    * a client poll response carrying both an answer and an error;
    * legacy decoders (without relay pattern / relay URL) given a non-empty
      pattern / URL: an error or the remaining fields;
+   * bytes after the closing brace of a complete document (ignored or refused);
    * unknown members; duplicated members (first or last); null members; a
      member of the wrong JSON type when the member is optional and
      unvalidated (Type, Clients, AcceptedRelayPattern, RelayURL, NAT of a poll
@@ -233,12 +234,14 @@ NumForms == {"frac", "exp", "big"}
 OddNumber(d) == \E i \in DOMAIN d.mem : d.mem[i].k \in NumForms
 
 Allowed(kind, d) ==
-  IF d.top \in AnyTops \/ OddNumber(d) THEN [full |-> {ANY}, legacy |-> IF kind \in {"ppreq", "ppresp"} THEN {ANY} ELSE {}]
-  ELSE IF d.top \notin ObjTops THEN [full |-> {ERR}, legacy |-> IF kind \in {"ppreq", "ppresp"} THEN {ERR} ELSE {}]
+  LET leg == kind \in {"ppreq", "ppresp"} IN
+  IF d.top \in AnyTops \/ OddNumber(d) THEN [full |-> {ANY}, legacy |-> IF leg THEN {ANY} ELSE {}]
+  ELSE IF d.top \notin ObjTops \cup {"trailing"} THEN [full |-> {ERR}, legacy |-> IF leg THEN {ERR} ELSE {}]
   ELSE LET msgs == Msgs(kind, Readings(kind, d.mem), d.ver)
-           x == IF HasExtra(kind, d.mem) THEN {ERR} ELSE {}
+           \* unknown members, or bytes after the closing brace: the decoder may ignore them or refuse
+           x == IF HasExtra(kind, d.mem) \/ d.top = "trailing" THEN {ERR} ELSE {}
        IN [full |-> UNION {Expect(kind, m) : m \in msgs} \cup x,
-           legacy |-> IF kind \in {"ppreq", "ppresp"} THEN UNION {LegacyExpect(kind, m) : m \in msgs} \cup x ELSE {}]
+           legacy |-> IF leg THEN UNION {LegacyExpect(kind, m) : m \in msgs} \cup x ELSE {}]
 
 -----------------------------------------------------------------------------
 (* 3. The codecs as documented. *)
